@@ -41,7 +41,7 @@ def base_env(reg) -> Dict[str, Any]:
         if sf.native is not None:
             env[name] = sf.native
     env.update(reg.native_env)
-    for name, (params, body) in reg.predicates.items():
+    for name, (params, body) in list(reg.predicates.items()) + list(reg.macros.items()):
         env[name] = _make_pred(name, params, body, env)
 
     def wf(obj):
